@@ -50,6 +50,12 @@ def run(ck):
     from ..report import RuleView
     from . import c14
     c14.join_score(RuleView(ck, {"C14.2": "C01.9"}))
+    ck.clause("C01.16", "a record names the maps its labels belong to: query / reference ids and lengths reach AlignmentResultRow.create "
+                        "in the parameters of their own role at every call site (as C02.3's role lint) - a reordered signature with one "
+                        "caller left behind exchanges them silently (all four are ints)")
+    from ..rules import role as _R01
+    _n01 = _R01.run_role_rule(ck, "C01.16", modules={"src.alignment.alignment_results", "src.alignment.aligner"})
+    ck.floor("C01.16 argument bindings judged", _n01, 60)
     ck.clause("C01.15", "the chainer hands segments back without its admissibility search only when at most one is non-empty (as C14.4 "
                         ":early-return): a short cut that returns all segments as the chain lets crossing / duplicate segments of "
                         "secondary peaks into one record")
